@@ -82,6 +82,11 @@ def gap(d, j, h, k=1.0):
     return np_.array([-k * x if x > 0 else 0.0, d[0, j] * 0.0])
 
 
+def veldep(d, j, h, c=1.0, dof=0):
+    # velocity-dependent term: backward difference (documented use of column j-1; at j = 0 that is the u_{-1} column)
+    return np_.array([-c * (d[dof, j] - d[dof, j - 1]) / h])
+
+
 np_ = None
 
 
@@ -97,7 +102,7 @@ def newmark_part(run, np, ode):
     rules, mats = res.tagged("RULES")[0]
     scheds = {nt: [tuple(x) for x in s] for nt, s in res.tagged("SCHED")}
     rng = np.random.default_rng(run.seed)
-    lattice = list(itertools.product(("diag", "full"), ("none", "vec", "mat", "singular"), (False, True), ("zero", "d0v0"), (0, 1, 2), sorted(scheds)))
+    lattice = list(itertools.product(("diag", "full"), ("none", "vec", "mat", "singular"), (False, True), ("zero", "d0v0", "d0", "v0"), (0, 1, 2, 3), sorted(scheds)))
     for li, (coup, mform, rf, ic, nnl, nt) in enumerate(list(lattice) * (1 if run.tier == "quick" else 30)):
         if coup == "diag" and mform == "mat" and li % 2:
             continue
@@ -125,13 +130,15 @@ def newmark_part(run, np, ode):
                 M[:, 1] = 0.0
         h = 0.004
         F = rng.standard_normal((n + (1 if rf else 0), nt))
-        u0 = rng.standard_normal(n) * 1e-2 if ic == "d0v0" else np.zeros(n)
-        v0 = rng.standard_normal(n) if ic == "d0v0" else np.zeros(n)
+        u0 = rng.standard_normal(n) * 1e-2 if ic in ("d0v0", "d0") else np.zeros(n)     # "d0" / "v0": the other argument is omitted (= zero)
+        v0 = rng.standard_normal(n) if ic in ("d0v0", "v0") else np.zeros(n)
         nonlin = []
         if nnl >= 1:
             nonlin.append((cubic, rng.standard_normal((n, 1)), dict(c=50.0, dof=2)))
         if nnl >= 2:
             nonlin.append((gap, rng.standard_normal((n, 2)), dict(k=300.0)))
+        if nnl >= 3:
+            nonlin.append((veldep, rng.standard_normal((n, 1)), dict(c=3.0, dof=int(rng.integers(0, n)))))
         marg = None if mform == "none" else (np.diag(M).copy() if (mform in ("vec", "singular") and coup == "diag") else M)
         barg = np.diag(B).copy() if coup == "diag" else B
         karg = np.diag(K).copy() if coup == "diag" else K
@@ -155,14 +162,14 @@ def newmark_part(run, np, ode):
                 ts = ode.SolveNewmark(marg2, barg2, karg2, h, rf=[n])
                 if nonlin:
                     ts.def_nonlin({("t%d" % k): (f_, T_, a_) for k, (f_, T_, a_) in enumerate(nonlin2)})
-                d0 = np.concatenate((u0, [0.123])) if ic == "d0v0" else None
-                v0a = np.concatenate((v0, [4.5])) if ic == "d0v0" else None
+                d0 = np.concatenate((u0, [0.123])) if ic in ("d0v0", "d0") else None
+                v0a = np.concatenate((v0, [4.5])) if ic in ("d0v0", "v0") else None
                 sol = ts.tsolve(F, d0, v0a)
             else:
                 ts = ode.SolveNewmark(marg, barg, karg, h)
                 if nonlin:
                     ts.def_nonlin({("t%d" % k): (f_, T_, a_) for k, (f_, T_, a_) in enumerate(nonlin)})
-                sol = ts.tsolve(F, u0 if ic == "d0v0" else None, v0 if ic == "d0v0" else None)
+                sol = ts.tsolve(F, u0 if ic in ("d0v0", "d0") else None, v0 if ic in ("d0v0", "v0") else None)
         except Exception as ex:
             run.violation("SolveNewmark raised %r" % ex, case, {"solver": "SolveNewmark"})
             continue
@@ -215,7 +222,24 @@ def cdf_part(run, np, ode):
         try:
             ts = ode.SolveCDF(s["m"], s["b"], s["k"], h, rf=rf, order=order) if trial % 2 else \
                 ode.SolveUnc(s["m"], s["b"], s["k"], h, rf=rf, order=order, cd_as_force=True)
-            sol = ts.tsolve(F, d0, v0)
+            if layout == "contiguous" and (trial // 6) % 2:
+                # the same recurrence reached one step at a time, with steps taken again after stepping ahead (documented: "re-do
+                # time-steps as necessary"): the history finally in place obeys the same defining relation
+                case["via"] = "generator with rewinds"
+                gen, _d, _v = ts.generator(nt, F[:, 0].copy(), d0, v0)
+                back = int(rng.integers(1, nt - 2))
+                ahead = int(rng.integers(back + 1, nt))
+                first = list(range(1, ahead + 1))
+                if trial % 4 == 1:
+                    first.append(ahead)                                     # the same step twice before going back
+                for i_ in first:
+                    # steps that are taken again later get another force the first time
+                    gen.send((i_, (F[:, i_] + (1.0 if i_ >= back else 0.0)).copy()))
+                for i_ in range(back, nt):
+                    gen.send((i_, F[:, i_].copy()))
+                sol = ts.finalize()
+            else:
+                sol = ts.tsolve(F, d0, v0)
         except Exception as ex:
             run.violation("%s raised %r" % (cls, ex), case, {"solver": cls})
             continue
